@@ -643,7 +643,7 @@ def run(chk):
     step_doubling_rule(chk, src, "step-doubling", rule_kind="relative-error-homogeneous")
     from .chain_rules import pc_evolver_rule
     from .C19 import tableaux_of_method_list
-    pc_evolver_rule(chk, src, "rk-usage", tableaux_of_method_list(src), rule_adaptive="adaptive-reject", rule_error="relative-error-homogeneous")
+    pc_evolver_rule(chk, src, "rk-usage", tableaux_of_method_list(src), rule_adaptive="adaptive-reject", rule_error="relative-error-homogeneous", rule_compress="must-compress")
 
 
 META = {
